@@ -4,7 +4,7 @@ NA_REASONS = {}
 claim("C01", "exploration", "bounded exhaustive input enumeration on the real code against a reference decoder (small-scope model checking)",
       "Every encoder output (dot_bracket, fcfs, each member of all_dot_brackets) is decoded by an independent per-type stack decoder for every "
       "pairing on up to 10 (quick) / 12 (thorough) positions, every chord diagram of up to 4/6 stems with stem lengths and gaps, ladders up to "
-      "30 levels, and every balanced string up to length 8/10 (also through the file readers for length <= 6); holds for all members of these families, nothing claimed beyond the bounds.",
+      "30 levels, and every balanced string up to length 8/10 (also through the file readers for length <= 6), sequences over letters other than ACGU and structures with 11-21 stems; holds for all members of these families, nothing claimed beyond the bounds.",
       "Trusts CPython and the harness's own decoder (ref2d.decode); CBC is the MILP back-end.", "DESIGN.md 3/C01")
 
 claim("C02", "exploration", "bounded exhaustive input enumeration on the real code against an exact branch-and-bound optimiser (small-scope model checking)",
@@ -37,7 +37,7 @@ claim("C12", "model_checking", "explicit-state breadth-first search over call hi
 claim("C13", "model_checking", "exhaustive environment-answer and fault-sequence exploration of the solver seam on the real code, each execution replayed",
       "All 21 solver configurations and all fault scripts of length <=2/3 (3 only up to 9 positions) over 7 solver behaviours, on every knotted pairing on up to 8/10 "
       "positions and chord diagrams of up to 3/4 stems: the conversion never raises, is lossless, equals FCFS whenever no optimum was "
-      "delivered and is optimal otherwise (also for sequences over letters other than ACGU).",
+      "delivered and is optimal otherwise (also for sequences over letters other than ACGU); BpSeq.fcfs itself is compared with the reference first-come-first-served assignment.",
       "The solver is substituted at pulp module seams (pulp.HiGHS_CMD, pulp.LpSolverDefault, explicit argument); HiGHS itself is absent.", "DESIGN.md 3/C13")
 
 claim("C14", "model_checking", "deviation-bounded exploration of set-iteration orders through a module seam, bound to real interpreters by a cross-process hash-seed battery",
@@ -74,12 +74,12 @@ claim("C10", "exploration", "exhaustive enumeration of a finite product of atom 
       "tables are returned unchanged, unfittable ones raise ValueError, and every fitted table is within limits, keeps atom order and fields, renames "
       "chains/residues one-to-one preserving grouping and survives write_pdb + parse_pdb_atoms; the same on row subsets of composite tables (mask, iloc, "
       "groupby), on a 99990-atom table with interleaved chains, and through splitter.main / unifier.main -f PDB (a file per model that is the model up to a "
-      "proper renaming - unchanged when it fits - or no file and an error message exactly when no fit exists); tables whose last serial is exactly 99999 / 100000 and mmCIF tables with label ids differing from the author ids are members.",
+      "proper renaming - unchanged when it fits - or no file and an error message exactly when no fit exists); tables whose last serial is exactly 99999 / 100000 and mmCIF tables with label ids differing from the author ids or without auth_atom_id / auth_comp_id are members.",
       "Tables are built by the library's own parsers from independently emitted text; PDB-derived tables are within limits by construction.", "DESIGN.md 3/C10")
 
 claim("C08", "exploration", "deviation-bounded exhaustive enumeration of abstract atom tables x formats x emitter options x requested models on the real reader, expectation computed from the abstract table",
       "Every table within 2 deviations (thorough: 3 on a reduced list) of the base table - models sharing identities, negative numbers, insertion codes, "
-      "same-name residues told apart by insertion code only, altlocs, repeated names, sub-0.5 A neighbours (also in a later model only), HETATM, long names, "
+      "same-name residues told apart by insertion code only or by the chain only, models numbered from 0 or written out of order or interleaved, altlocs, repeated names, sub-0.5 A neighbours (also in a later model only), HETATM, long names, "
       "absent occupancy, both null markers, label != auth - emitted as PDB and mmCIF and "
       "read for every requested model (d<=1 tables also as short-line / CRLF / extra-record PDB texts and reversed / quoted / extra-column mmCIF loops): only the requested model's atoms, each once, highest-occupancy copy, clash rule, residues in file order with exact identity and coordinates.",
       "Absent occupancy combined with duplicates/close atoms is executed but not judged; ties in occupancy admit either copy.", "DESIGN.md 3/C08")
@@ -120,7 +120,7 @@ claim("C04", "exploration", "exhaustive enumeration of a stacking placement latt
 claim("C11", "exploration", "invariant checking on every annotation produced by the exhaustive lattice/corpus/schedule explorations of C03 and C04, all models of multi-model files, and the CSV/JSON writers",
       "On every annotation of the pair lattice, stacking lattice, three-nucleotide family, corpus variants, all models of the NMR files and every explored pair order: "
       "no repeats, no self-interactions, only residues of the analysed model, orientation and sorting, Saenger exactly per the 28-class table, BPh/BR soundness, "
-      "class implied by the contacts, one class per ordered residue pair and kind; CSV and JSON list the same interactions.",
+      "class implied by the contacts, one class per ordered residue pair and kind; CSV and JSON list the same interactions; one structure object holding two models (numbered 1/2, 0/1 or 5/2) is annotated model by model.",
       "Saenger asserted for upper-case A/C/G/U/T only; BPh/BR class check is liberal.", "DESIGN.md 3/C11, 5.1")
 
 claim("C05", "exploration", "exhaustive enumeration of a finite transformation family (d<=2) over corpus and lattice structures on the real reader+annotator, differential oracle with margin measurement by a reference model",
@@ -128,7 +128,7 @@ claim("C05", "exploration", "exhaustive enumeration of a finite transformation f
       "order-preserving relabelings, PDB instead of mmCIF) applied to every corpus structure and to lattice structures with interactions leaves base pairs, "
       "stackings, BPh, BR, BPSEQ, dot-bracket and extended dot-bracket unchanged up to the renaming; structures with a decision margin below 1e-6 are undecided. "
       "297 two-nucleotide placements with margins of 2e-5..2e-4 are moved in memory by 59 icosahedral rotations; lattice structures with two alternate "
-      "conformers of a residue are annotated identically as PDB and as mmCIF.",
+      "conformers of a residue are annotated identically as PDB and as mmCIF; 160 exactly aligned placements (bases straight above / below each other) are moved by general rotations.",
       "Format comparisons use harness-emitted texts from one abstract atom list; rigid+format pairs use decimal-exact motions on the coordinate strings.", "DESIGN.md 3/C05, 5.1")
 
 claim("C06", "exploration", "exhaustive enumeration of all entry sequences up to length 2/3 over a finite entry alphabet on three host structures on the real mapping code, against an independent oracle",
